@@ -22,7 +22,7 @@ if [ "$check" = c12 ]; then
 fi
 case "$check" in
   c18) export LSMC_TAGS=vfs; bin=lsmc-vfs ;;   # VFS code needs -tags vfs (cgo)
-  c10) # the command-line half of C10 drives the real `litestream restore` binary, built from the tree under test
+  c10|c04) # C10's command-line half drives the real `litestream restore` binary, C04 the `litestream reset` command; built from the tree under test
        ( cd /repo && go build -o "$VERIF_ROOT/bin/litestream-cli" ./cmd/litestream ) || { echo "BUILD FAILED (cmd/litestream)"; exit 2; } ;;
 esac
 ./tools/build.sh /repo "$VERIF_ROOT/harness" "$VERIF_ROOT/bin/$bin" || { echo "BUILD FAILED (harness or /repo does not compile with -tags verif)"; exit 2; }
